@@ -15,10 +15,10 @@ CXX  := $(CXX_$(CFG))
 OPT  := $(OPT_$(CFG))
 
 INC := -I$(GEN) -I$(REPO)/tools/include -I$(REPO)/csg/include -I$(REPO)/xtp/include \
-       -I/usr/include/eigen3 -I$(REPO)/csg/src/libcsg -I$(REPO)/csg/src/libcsg/modules/io \
+       -I/usr/include/eigen3 -I/usr/include/hdf5/serial -I$(REPO)/csg/src/libcsg -I$(REPO)/csg/src/libcsg/modules/io \
        -I$(REPO)/csg/src/tools
 CXXFLAGS := -std=c++17 $(OPT) -DNDEBUG -w -MMD -MP $(INC)
-HARNESS_FLAGS := -std=c++17 $(OPT) -Wall -Wno-unused-function -MMD -MP $(INC) -I$(V)/sim
+HARNESS_FLAGS := -std=c++17 $(OPT) -Wall -Wno-unused-function -Wno-unknown-pragmas -MMD -MP $(INC) -I$(V)/sim
 LIBS := -lboost_program_options -lboost_filesystem -lboost_system -lboost_regex -lexpat -lfftw3 -ldl -lpthread
 
 # same globs as tools/src/libtools/CMakeLists.txt and csg/src/libcsg/CMakeLists.txt
@@ -57,11 +57,11 @@ $(GEN)/.stamp: $(V)/Makefile
 	@cp $(GEN)/votca_xtp_config.h $(GEN)/votca/xtp/votca_xtp_config.h
 	@touch $@
 
-$(B)/repo/%.o: $(REPO)/%.cc $(GEN)/.stamp
+$(B)/repo/%.o: $(REPO)/%.cc | $(GEN)/.stamp
 	@mkdir -p $(dir $@)
 	$(CXX) $(CXXFLAGS) -c $< -o $@
 
-$(B)/sim/%.o: $(V)/sim/%.cc $(GEN)/.stamp
+$(B)/sim/%.o: $(V)/sim/%.cc | $(GEN)/.stamp
 	@mkdir -p $(dir $@)
 	$(CXX) $(HARNESS_FLAGS) -c $< -o $@
 
@@ -70,19 +70,19 @@ $(B)/libvotca.a: $(LIB_OBJ)
 	ar rcs $@ $^
 
 # ---- tool sources with renamed main ---------------------------------------
-$(B)/tool/csg_stat.o: $(REPO)/csg/src/tools/csg_stat.cc $(GEN)/.stamp
+$(B)/tool/csg_stat.o: $(REPO)/csg/src/tools/csg_stat.cc | $(GEN)/.stamp
 	@mkdir -p $(dir $@)
 	$(CXX) $(CXXFLAGS) -Dmain=tool_main -c $< -o $@
-$(B)/tool/orientcorr.o: $(REPO)/csg/src/csgapps/orientcorr/orientcorr.cc $(GEN)/.stamp
+$(B)/tool/orientcorr.o: $(REPO)/csg/src/csgapps/orientcorr/orientcorr.cc | $(GEN)/.stamp
 	@mkdir -p $(dir $@)
 	$(CXX) $(CXXFLAGS) -Dmain=tool_main -c $< -o $@
-$(B)/tool/csg_reupdate.o: $(REPO)/csg/src/tools/csg_reupdate.cc $(GEN)/.stamp
+$(B)/tool/csg_reupdate.o: $(REPO)/csg/src/tools/csg_reupdate.cc | $(GEN)/.stamp
 	@mkdir -p $(dir $@)
 	$(CXX) $(CXXFLAGS) -Dmain=tool_main -c $< -o $@
-$(B)/tool/partial_rdf.o: $(REPO)/csg/src/csgapps/partial_rdf/partial_rdf.cc $(GEN)/.stamp
+$(B)/tool/partial_rdf.o: $(REPO)/csg/src/csgapps/partial_rdf/partial_rdf.cc | $(GEN)/.stamp
 	@mkdir -p $(dir $@)
 	$(CXX) $(CXXFLAGS) -Dmain=tool_main -c $< -o $@
-$(B)/tool/template_threaded.o: $(REPO)/csg/share/template/template_threaded.cc $(GEN)/.stamp
+$(B)/tool/template_threaded.o: $(REPO)/csg/share/template/template_threaded.cc | $(GEN)/.stamp
 	@mkdir -p $(dir $@)
 	$(CXX) $(CXXFLAGS) -Dmain=tool_main -c $< -o $@
 
@@ -92,7 +92,7 @@ $(B)/xtpcopy/parallelxjobcalc.cc: $(REPO)/xtp/src/libxtp/parallelxjobcalc.cc $(V
 	@mkdir -p $(dir $@)
 	cp $(REPO)/xtp/src/libxtp/parallelxjobcalc.cc $@
 	cp $(V)/sim/c10/xtp_libint2.h $(dir $@)/xtp_libint2.h
-$(B)/xtpcopy/parallelxjobcalc.o: $(B)/xtpcopy/parallelxjobcalc.cc $(GEN)/.stamp
+$(B)/xtpcopy/parallelxjobcalc.o: $(B)/xtpcopy/parallelxjobcalc.cc | $(GEN)/.stamp
 	$(CXX) $(CXXFLAGS) -c $< -o $@
 XTP_OBJ := $(B)/repo/xtp/src/libxtp/progressobserver.o $(B)/repo/xtp/src/libxtp/job.o $(B)/xtpcopy/parallelxjobcalc.o
 
